@@ -65,7 +65,7 @@ structure View where
   lat : Vec
   lon : Vec
   obs : Mat
-deriving Repr
+deriving Repr, DecidableEq
 
 /-- `Data.set_window` as a function of the full data set.  `none` is the
 `ValueError` raised by `GeoGrid(time, lat_seq, lon_seq)` (`time_seq.min()`,
